@@ -257,3 +257,162 @@ Proof.
   - apply drop_write_at; rewrite ?Hr; nia.
   - apply len_write_at_within; rewrite ?Hr; nia.
 Qed.
+
+(* ---------------- a record handed to a header that was not made from it ---------------- *)
+
+Lemma dim_info_eq_shape a b : dim_info_eq a b = true ->
+  dim_shape a = dim_shape b
+  /\ np_all_eq (dim_offsets a) (dim_offsets b) = true /\ np_all_eq (dim_scales a) (dim_scales b) = true.
+Proof.
+  destruct a as [[[[[[[an ak] ab] ae] ast] ad] ao] asc]. destruct b as [[[[[[[bn bk] bb] be] bst] bd] bo] bsc].
+  unfold dim_info_eq, dim_shape, dim_offsets, dim_scales. rewrite !andb_true_iff. intros H. decompose [and] H. clear H.
+  repeat match goal with
+         | E : String.eqb _ _ = true |- _ => apply String.eqb_eq in E
+         | E : (_ =? _) = true |- _ => apply Z.eqb_eq in E
+         end.
+  subst. split; [reflexivity|]. split; assumption.
+Qed.
+
+Lemma extra_dimensions_eq_shapes a : forall b, extra_dimensions_eq a b = true ->
+  map dim_shape a = map dim_shape b /\ Forall2 same_scaling a b.
+Proof.
+  induction a as [|x a IH]; intros [|y b] H; cbn [extra_dimensions_eq] in H; try discriminate.
+  - split; constructor.
+  - destruct (dim_info_eq x y) eqn:E; cbn [negb] in H; [|discriminate].
+    destruct (dim_info_eq_shape _ _ E) as (S & O & C). destruct (IH _ H) as [M F].
+    split; [cbn [map]; now rewrite S, M|]. constructor; [split; assumption|exact F].
+Qed.
+
+Lemma dim_name_of_shape d : dim_name d = fst (fst (fst (dim_shape d))).
+Proof. destruct d as [[[[[[[n k] b] e] s] ds] o] sc]. reflexivity. Qed.
+
+Lemma same_shapes_same_descriptors a b : map dim_shape a = map dim_shape b ->
+  ebs_of_dims a = ebs_of_dims b /\ map dim_name a = map dim_name b.
+Proof.
+  intros H. unfold ebs_of_dims, eb_of_dim. split.
+  - rewrite <- !(map_map dim_shape eb_of_shape). now rewrite H.
+  - rewrite !(map_ext _ _ dim_name_of_shape). rewrite <- !(map_map dim_shape (fun s => fst (fst (fst s)))). now rewrite H.
+Qed.
+
+(* what a hand-over accepts has the header's point format id, the header's dimensions position by position (name, kind,
+   width, number of elements: hence the same Extra Bytes descriptors) and numerically the same scales and offsets; the
+   record's bytes, laid out by the record's own dimensions, are read back by the specification's decoder under the
+   descriptors the header declares *)
+Theorem accepted_record_same_layout hid hdims rid rdims : handover_accepts hid hdims rid rdims = true ->
+  hid = rid /\ map dim_shape hdims = map dim_shape rdims /\ map dim_name hdims = map dim_name rdims
+  /\ ebs_of_dims hdims = ebs_of_dims rdims /\ Forall2 same_scaling rdims hdims.
+Proof.
+  unfold handover_accepts, point_format_eq. intros H.
+  destruct (rid =? hid) eqn:E; cbn [negb] in H; [|discriminate]. apply Z.eqb_eq in E.
+  destruct (extra_dimensions_eq_shapes _ _ H) as [M F]. destruct (same_shapes_same_descriptors _ _ M) as [D N].
+  repeat split; auto.
+Qed.
+
+Theorem accepted_record_decodes hid hdims rid rdims ebs vals bs : 0 <= hid <= 10 ->
+  handover_accepts hid hdims rid rdims = true ->
+  ebs_of_dims rdims = Some ebs -> gen_enc_point rid ebs vals = Ok bs ->
+  ebs_of_dims hdims = Some ebs /\ map dim_name hdims = map dim_name rdims /\ spec_dec_point hid ebs bs = Ok vals.
+Proof.
+  intros Hf Ha He Hb. destruct (accepted_record_same_layout _ _ _ _ Ha) as (I & _ & N & D & _). subst rid.
+  split; [now rewrite D|]. split; [exact N|]. now apply spec_reads_laspy.
+Qed.
+
+Lemma handover_guards_all :
+  handover_guards = ["LasWriter.write_points"; "LasAppender.append_points"; "LasData.__init__"; "LasData.points"]%string.
+Proof. reflexivity. Qed.
+
+(* ---------------- assignments into the elements of an extra dimension ---------------- *)
+
+Lemma upd_nil {A} i (v : A) : upd [] i v = [].
+Proof. unfold upd. now rewrite firstn_nil, skipn_nil. Qed.
+Lemma upd_cons_0 {A} (x : A) l v : upd (x :: l) 0 v = v :: l.
+Proof. reflexivity. Qed.
+Lemma upd_cons_S {A} (x : A) l i v : upd (x :: l) (S i) v = x :: upd l i v.
+Proof. reflexivity. Qed.
+
+Lemma length_upd {A} (l : list A) : forall i v, length (upd l i v) = length l.
+Proof.
+  induction l as [|x l IH]; intros i v; [now rewrite upd_nil|].
+  destruct i as [|i]; [reflexivity|]. rewrite upd_cons_S. cbn [length]. now rewrite IH.
+Qed.
+
+Lemma nth_upd_same {A} (l : list A) : forall i v d, (i < length l)%nat -> nth i (upd l i v) d = v.
+Proof.
+  induction l as [|x l IH]; intros i v d Hi; [cbn in Hi; lia|].
+  destruct i as [|i]; [reflexivity|]. rewrite upd_cons_S. cbn [nth]. apply IH. cbn [length] in Hi. lia.
+Qed.
+
+Lemma nth_upd_other {A} (l : list A) : forall i j v d, i <> j -> nth j (upd l i v) d = nth j l d.
+Proof.
+  induction l as [|x l IH]; intros i j v d Hij; [now rewrite upd_nil|].
+  destruct i as [|i], j as [|j]; try congruence; try reflexivity.
+  rewrite upd_cons_S. cbn [nth]. apply IH. congruence.
+Qed.
+
+Lemma map_length_upd (g : grid) : forall i r, length r = length (nth i g []) ->
+  map (@length Z) (upd g i r) = map (@length Z) g.
+Proof.
+  induction g as [|x g IH]; intros i r Hr; [now rewrite upd_nil|].
+  destruct i as [|i].
+  - rewrite upd_cons_0. cbn [map nth] in *. now rewrite Hr.
+  - rewrite upd_cons_S. cbn [map nth] in *. now rewrite IH.
+Qed.
+
+Lemma set_elem_shape g i k v : map (@length Z) (set_elem g i k v) = map (@length Z) g.
+Proof. unfold set_elem. apply map_length_upd. apply length_upd. Qed.
+
+Lemma row_length (g : grid) i : length (nth i g []) = nth i (map (@length Z) g) 0%nat.
+Proof. exact (eq_sym (map_nth (@length Z) g [] i)). Qed.
+
+Lemma get_set_same g i k v : (i < length g)%nat -> (k < length (nth i g []))%nat -> get_elem (set_elem g i k v) i k = v.
+Proof. intros Hi Hk. unfold get_elem, set_elem. rewrite nth_upd_same by exact Hi. now apply nth_upd_same. Qed.
+
+Lemma get_set_other g i k v i' k' : (i, k) <> (i', k') -> get_elem (set_elem g i k v) i' k' = get_elem g i' k'.
+Proof.
+  intros H. unfold get_elem, set_elem. destruct (Nat.eq_dec i i') as [E|E].
+  - subst i'. assert (Hk : k <> k') by congruence.
+    destruct (Nat.lt_ge_cases i (length g)) as [Hi|Hi].
+    + rewrite nth_upd_same by exact Hi. now apply nth_upd_other.
+    + rewrite (nth_overflow (upd g i _)) by (rewrite length_upd; lia). now rewrite (nth_overflow g) by lia.
+  - now rewrite nth_upd_other by exact E.
+Qed.
+
+Lemma assign_elems_app a : forall g b, assign_elems g (a ++ b) = assign_elems (assign_elems g a) b.
+Proof. induction a as [|[[i k] v] a IH]; intros g b; [reflexivity|]. cbn [app assign_elems]. apply IH. Qed.
+
+Lemma assign_elems_shape sel : forall g, map (@length Z) (assign_elems g sel) = map (@length Z) g.
+Proof.
+  induction sel as [|[[i k] v] sel IH]; intros g; [reflexivity|]. cbn [assign_elems]. rewrite IH. apply set_elem_shape.
+Qed.
+
+Lemma assign_elems_miss sel : forall g i k, ~ In (i, k) (map sel_pos sel) ->
+  get_elem (assign_elems g sel) i k = get_elem g i k.
+Proof.
+  induction sel as [|[[i' k'] v] sel IH]; intros g i k H; [reflexivity|]. cbn [assign_elems map In sel_pos fst] in *.
+  rewrite IH by (intro X; apply H; now right). apply get_set_other. intro X. apply H. now left.
+Qed.
+
+Lemma assign_elems_hit sel : forall g i k v, NoDup (map sel_pos sel) -> In (i, k, v) sel ->
+  (i < length g)%nat -> (k < length (nth i g []))%nat -> get_elem (assign_elems g sel) i k = v.
+Proof.
+  induction sel as [|[[i' k'] v'] sel IH]; intros g i k v Hnd Hin Hi Hk; [contradiction|].
+  cbn [map sel_pos fst] in Hnd. inversion Hnd as [|p ps Hnot Hnd']. subst p ps. cbn [assign_elems].
+  destruct Hin as [E|Hin].
+  - inversion E. subst i' k' v'. rewrite assign_elems_miss by exact Hnot. now apply get_set_same.
+  - apply IH; auto.
+    + unfold set_elem. now rewrite length_upd.
+    + rewrite row_length, set_elem_shape, <- row_length. exact Hk.
+Qed.
+
+(* an assignment that names distinct (point, element) positions stores the given value at each of them, leaves every other
+   element of every point as it was and keeps the shape; assignments made one after the other compose *)
+Theorem element_assignment (g : grid) (sel : list (nat * nat * Z)) : NoDup (map sel_pos sel) ->
+  (forall i k v, In (i, k, v) sel -> (i < length g)%nat -> (k < length (nth i g []))%nat -> get_elem (assign_elems g sel) i k = v)
+  /\ (forall i k, ~ In (i, k) (map sel_pos sel) -> get_elem (assign_elems g sel) i k = get_elem g i k)
+  /\ map (@length Z) (assign_elems g sel) = map (@length Z) g.
+Proof.
+  intros Hnd. split; [|split].
+  - intros i k v Hin Hi Hk. now apply assign_elems_hit.
+  - intros i k H. now apply assign_elems_miss.
+  - apply assign_elems_shape.
+Qed.
